@@ -319,6 +319,7 @@ def run(ctx):
         for sx in srcs:
             if sx.kind == 'assert' and sx.key_fn == unesc.FEED and not sx.discharged:
                 sx.discharged = 'decided by P5: all %d (state, byte) pairs of the unescaper were evaluated exactly with range checks' % ctx.unescaper_exact
+    ctx._cone = (G, parent, None, srcs)
     import controls
     controls.panic_cone(ctx)
     cone.judge(ctx, 'P6.panic-source', cone.group_keys(srcs), triage,
@@ -498,3 +499,14 @@ def check_unescaper(ctx, f):
     ctx.add('P5.fold-initial-state', 'unescaped', loc(U.root), ok_init, 'the unescaper must start in Value with an empty output')
     ctx.add('P5.fold-step', 'unescaped', loc(U.root), ok_step, 'each input byte must be fed to the unescaper and exactly the Value payloads pushed to the output')
     ctx.add('P5.accept-only-in-value', 'unescaped', loc(U.root), ok_acc, 'a value ending inside an escape sequence (or after a bad one) must be rejected')
+
+
+def run_thorough(ctx):
+    """cross-engine agreement: clippy's restriction lints (an independent, lexical implementation) inside the cone's bodies"""
+    if ctx.cfg != 'default':
+        return          # clippy is run with the default feature set: compared in that configuration only
+    G, parent, regions, srcs = ctx._cone
+    sites, info = engine.clippy_sites()
+    n = cone.clippy_agreement(ctx, 'P6.cross-engine-agreement', G, parent, regions, srcs, sites)
+    ctx.floor('P6.cross-engine', 'clippy sites inside the filter compiler cone', n, 3)
+    ctx.note('cross-engine agreement: %d constructs reported by clippy restriction lints lie inside the %d bodies of the cone; each must coincide with a MIR panic source' % (n, len(parent)))
